@@ -37,6 +37,9 @@ type Scenario struct {
 	RecvMax     uint16 // 0 = absent (v5) / not applicable (v3)
 	MaxInflight uint16
 	Redis       bool
+	// LowerRM (v5): every connection after the first declares Receive Maximum 1 although the session has more
+	// unacknowledged messages than that from the earlier connection
+	LowerRM bool `json:",omitempty"`
 	// DupPublisher: the messages come from an MQTT client that sets the DUP flag on every PUBLISH (it re-sends after a
 	// lost connection; the broker has never seen these identifiers, so they are new messages). What the publisher's
 	// flag says about ITS transmission must not show on the broker's own first transmission to the subscriber.
@@ -55,9 +58,13 @@ func Generate(rng *rand.Rand, maxMsgs int) Scenario {
 	}
 	sc.IE = rng.Intn(2) == 0
 	sc.DupPublisher = rng.Intn(3) == 0
+	sc.LowerRM = sc.V == 5 && sc.RecvMax != 1 && sc.MaxInflight > 1 && rng.Intn(4) == 0
 	n := 3 + rng.Intn(maxMsgs-2)
 	for i := 0; i < n; i++ {
 		sc.QoS = append(sc.QoS, byte(1+rng.Intn(2)))
+		if sc.LowerRM {
+			sc.QoS[i] = 1 // one PUBACK frees a slot of the window; keeps the windowed replay easy to follow
+		}
 		var p AckPlan
 		switch x := rng.Intn(100); {
 		case x < 45:
@@ -108,6 +115,7 @@ var RedisCfg func(c *config.Config) (func(), error)
 const step = 15 * time.Second
 
 type runner struct {
+	replayOpen bool // on a resumed connection: no new (DUP=0) message has arrived yet
 	sc      *Scenario
 	b       *broker.Broker
 	c       *wire.Client
@@ -159,6 +167,12 @@ func (rn *runner) connect() (*mqttx.Packet, error) {
 			rm := rn.sc.RecvMax
 			p.Props.ReceiveMax = &rm
 		}
+		if rn.sc.LowerRM && len(rn.conns) > 0 {
+			rm := uint16(1)
+			p.Props.ReceiveMax = &rm
+			rn.limit = 1
+			rn.obs["resumes_with_lower_receive_maximum"]++
+		}
 	}
 	ack, err := c.Connect(p, step)
 	if err != nil {
@@ -168,6 +182,7 @@ func (rn *runner) connect() (*mqttx.Packet, error) {
 		return nil, fmt.Errorf("connack %d", ack.Code)
 	}
 	rn.c = c
+	rn.replayOpen = len(rn.conns) > 0
 	rn.conns = append(rn.conns, c)
 	rn.inPos = rn.after(mqttx.CONNACK)
 	rn.epochIn = 0
@@ -248,8 +263,15 @@ func (rn *runner) handle(p *mqttx.Packet) {
 			// first transmission
 			var k int
 			fmt.Sscanf(pl, "m/%d", &k)
-			if p.Dup {
+			switch {
+			case p.Dup && rn.replayOpen:
+				// a message whose first transmission we never consumed (it was on its way when we cut) and whose
+				// retransmission had to wait for room in this connection's window: still before any new message
+				rn.obs["lost_first_transmissions"]++
+			case p.Dup:
 				rn.add("first_tx.dup", "first transmission with DUP=1: "+p.String())
+			default:
+				rn.replayOpen = false // the first new message: the replay of the old connection's messages is over
 			}
 			if p.PacketID == 0 {
 				rn.add("id.zero", "PUBLISH with packet id 0: "+p.String())
@@ -348,6 +370,8 @@ func (rn *runner) resume() {
 	seen := map[*entry]bool{}
 	lastOrder := 0
 	got := 0
+	var window []*entry // retransmitted on this connection, not yet acknowledged by us
+	windowReported := false
 	for {
 		need := 0
 		for _, e := range exp {
@@ -358,6 +382,15 @@ func (rn *runner) resume() {
 		timeout := 150 * time.Millisecond // quiet period for optional (uncertain) retransmissions
 		if need > 0 {
 			timeout = step
+		}
+		if need > 0 && len(window) >= rn.limit && len(window) > 0 && !rn.c.WaitIn(rn.inPos, 30*time.Millisecond) {
+			// the window of this connection is full: the rest of the retransmissions can only follow once we
+			// acknowledge. Acknowledge the oldest one and go on.
+			w := window[0]
+			window = window[1:]
+			rn.sendAck(w, w.State == "recsent")
+			rn.obs["replays_continued_after_ack"]++
+			continue
 		}
 		if !rn.c.WaitIn(rn.inPos, timeout) {
 			if need > 0 {
@@ -440,6 +473,15 @@ func (rn *runner) resume() {
 			continue
 		}
 		seen[e] = true
+		window = append(window, e)
+		if len(window) > rn.limit && !windowReported {
+			windowReported = true
+			sig := fmt.Sprintf("window.resume:v=%d", rn.sc.V)
+			if rn.sc.LowerRM {
+				sig += ":receive_maximum_lowered=true"
+			}
+			rn.add(sig, fmt.Sprintf("%d unacknowledged PUBLISH packets after resume, limit %d", len(window), rn.limit))
+		}
 		if e.Order < lastOrder {
 			rn.add("resume.order", fmt.Sprintf("retransmission of %s (original position %d) after position %d", e.Payload, e.Order, lastOrder))
 		}
@@ -472,9 +514,7 @@ func (rn *runner) resume() {
 		rn.obs["retransmissions"] += got
 		rn.obs["resumes_with_retransmission"]++
 	}
-	if n := rn.outstanding(); n > rn.limit {
-		rn.add(fmt.Sprintf("window.resume:v=%d", rn.sc.V), fmt.Sprintf("%d unacknowledged PUBLISH packets after resume, limit %d", n, rn.limit))
-	}
+
 	if rn.dead {
 		return
 	}
